@@ -64,7 +64,7 @@ ExportEdge == PrintT(<<"EDGE", ToJson([steps |-> hist',
 BaseCfg == [ name |-> "irc.irc", network |-> "IRCnetwork", motd |-> "Hello, world!",
              admin_info |-> "ircadmin is IRC admin", admin_info2 |-> <<>>, admin_email |-> <<>>,
              password |-> <<>>, max_joins |-> <<>>, max_connections |-> <<>>,
-             default_modes |-> {}, tls |-> FALSE, operators |-> <<>>, users |-> <<>>, channels |-> <<>> ]
+             default_modes |-> {}, tls |-> FALSE, dns |-> FALSE, operators |-> <<>>, users |-> <<>>, channels |-> <<>> ]
 ChanCfg(name) == [ name |-> name, topic |-> <<>>, flags |-> {}, key |-> <<>>, limit |-> <<>>,
                    ban |-> {}, exc |-> {}, invex |-> {}, q |-> {}, a |-> {}, o |-> {}, h |-> {}, v |-> {} ]
 (* JSON form of a configuration (sets as arrays) for the EDGE/CFG lines *)
